@@ -187,7 +187,7 @@ PT == << <<0,0,0,0,0,0,0,0>>, <<1,0,0,1,2,0,0,1>>, <<0,1,0,2,0,1,0,2>>, <<2,0,1,
          <<1,1,1,1,1,1,1,1>>, <<0,2,1,0,0,2,1,0>> >>
 \* all six profiles up to 5 entities, three for 6, two for 7
 ProfThorough == [n \in 2..7 |-> {PT[k] : k \in 1..(IF n <= 5 THEN 6 ELSE IF n = 6 THEN 3 ELSE 2)}]
-TaggedThorough == [n \in 2..7 |-> IF n <= 5 THEN 2 ELSE 1]
+TaggedThorough == [n \in 2..7 |-> IF n <= 4 THEN 2 ELSE 1]
 LEntry(f, hasline, line, indent, abs, trail) ==
    [k |-> "entry", f |-> f, hasline |-> hasline, line |-> line, indent |-> indent, abs |-> abs, trail |-> trail]
 LComment == [k |-> "comment", f |-> 0, hasline |-> FALSE, line |-> 0, indent |-> 0, abs |-> FALSE, trail |-> 0]
